@@ -15,7 +15,9 @@ FUNCTIONS = [("pandapower.control.controller.const_control", "ConstControl.set_r
              ("pandapower.pf.run_newton_raphson_pf", "_run_ac_pf_without_qlims_enforced"),
              ("pandapower.pf.run_newton_raphson_pf", "_get_Y_bus"), ("pandapower.pf.run_newton_raphson_pf", "_get_Sbus"),
              ("pandapower.pf.run_dc_pf", "_run_dc_pf"), ("pandapower.pypower.makeBdc", "makeBdc"),
-             ("pandapower.timeseries.read_batch_results", "v_to_i_s"), ("pandapower.pf.pfsoln_numba", "calc_branch_flows_batch"),
+             ("pandapower.timeseries.read_batch_results", "v_to_i_s"), ("pandapower.timeseries.output_writer", "OutputWriter.get_batch_outputs"),
+             ("pandapower.timeseries.read_batch_results", "get_batch_line_results"), ("pandapower.timeseries.read_batch_results", "get_batch_trafo_results"),
+             ("pandapower.timeseries.read_batch_results", "get_batch_trafo3w_results"), ("pandapower.pf.pfsoln_numba", "calc_branch_flows_batch"),
              ("pandapower.pypower.makeYbus", "makeYbus"), ("pandapower.pypower.makeSbus", "makeSbus"),
              ("pandapower.build_bus", "_calc_pq_elements_and_add_on_ppc"), ("pandapower.build_branch", "_calc_line_parameter"),
              ("pandapower.build_branch", "_calc_trafo_parameter"), ("pandapower.build_gen", "_build_gen_ppc"),
@@ -368,11 +370,76 @@ def make_batch_flows(kind):
     return fn
 
 
+def _outputs_net(kind):
+    if ("out", kind) not in _FNET:
+        net = pp.create_empty_network()
+        if kind == "lines_only":
+            b = [pp.create_bus(net, 20.) for _ in range(3)]
+            pp.create_ext_grid(net, b[0])
+            pp.create_line_from_parameters(net, b[0], b[1], 2., 0.1, 0.1, 10, 0.4)
+            pp.create_line_from_parameters(net, b[1], b[2], 2., 0.1, 0.1, 10, 0.4)
+            pp.create_load(net, b[2], 1., 0.3)
+        else:   # trafo_only
+            b = [pp.create_bus(net, v) for v in (110., 20.)]
+            pp.create_ext_grid(net, b[0])
+            pp.create_transformer_from_parameters(net, b[0], b[1], 40, 110, 20, 0.3, 12, 20, 0.05)
+            pp.create_load(net, b[1], 1., 0.3)
+        pp.runpp(net, numba=False, lightsim2grid=False)
+        _FNET[("out", kind)] = net
+    return _FNET[("out", kind)]
+
+
+def make_batch_outputs(kind):
+    """(B) the real OutputWriter.get_batch_outputs (branch flows v_to_i_s replaced by symbolic per-branch currents / powers, see batch_flows_*):
+    every logged (table, variable) gets one frame whose columns are the elements of that table - none if the net has no such element -
+    with the values the per-step result writer reports for the same currents"""
+    def fn(ctx):
+        ow_mod = ctx.load("pandapower.timeseries.output_writer")
+        rb = ctx.load("pandapower.results_branch")
+        net = copy.deepcopy(_outputs_net(kind))
+        nbr = net._ppc["branch"].shape[0]
+        i_ft = ctx.obj(np.zeros((nbr, 2)))
+        s_ft = ctx.obj(np.zeros((nbr, 2)))
+        for k in range(nbr):
+            for side in (0, 1):
+                i_ft[k, side] = ctx.var(f"i{k}_{side}", 0., 2.)
+                s_ft[k, side] = ctx.var(f"s{k}_{side}", 0., 60.)
+        i_abs = (i_ft[:, 0][None, :], i_ft[:, 1][None, :])
+        s_abs = (s_ft[:, 0][None, :], s_ft[:, 1][None, :])
+        ow = object.__new__(ow_mod.OutputWriter)
+        ow.time_steps = [0]
+        ow.output = {"ppc_bus.vm": pd.DataFrame(np.ones((1, len(net.bus)))), "ppc_bus.va": pd.DataFrame(np.zeros((1, len(net.bus))))}
+        ow.output_list = []
+        wanted = [("res_line", "loading_percent"), ("res_line", "i_ka"), ("res_trafo", "loading_percent"), ("res_trafo", "i_hv_ka"),
+                  ("res_trafo3w", "loading_percent"), ("res_bus", "vm_pu")]
+        with patched(ow_mod, v_to_i_s=lambda net_, vm, va: (None, s_abs, i_abs)):
+            ow.get_batch_outputs(net, dict(batch_read=list(wanted)))
+        ppc = {"bus": ctx.obj(net._ppc["bus"]), "branch": ctx.obj(net._ppc["branch"].real)}
+        for t in ("res_line", "res_trafo", "res_trafo3w"):
+            net[t] = net[t].astype(object if ctx.symbolic else float)
+        rb._get_line_results(net, ppc, i_ft)
+        rb._get_trafo_results(net, ppc, s_ft, i_ft)
+        rb._get_trafo3w_results(net, ppc, s_ft, i_ft)
+        ctx.true("every_requested_variable_is_recorded", sorted(ow.output_list) == sorted(wanted))
+        for table, var in wanted:
+            name = f"{table}.{var}"
+            ctx.true(f"{name}/recorded", name in ow.output)
+            if name not in ow.output or table == "res_bus":
+                continue
+            frame = ow.output[name]
+            ctx.true(f"{name}/one_column_per_element", frame.shape == (1, len(net[table])))
+            for r in range(min(frame.shape[1], len(net[table]))):
+                ctx.eq(f"{name}/batch_value_equals_step_value[{r}]", frame.values[0, r], net[table][var].values[r])
+    return fn
+
+
 def instances(tier):
     out = []
     for tl in ("current", "power"):
         out.append(Inst(f"batch_values_{tl}", make_batch(tl), nvars=60, samples=2, max_paths=3000,
                         meta=dict(part="B", trafo_loading=tl), raises=(UserWarning,)))
+    for kind in ("lines_only", "trafo_only"):
+        out.append(Inst(f"batch_outputs_{kind}", make_batch_outputs(kind), nvars=30, samples=2, meta=dict(part="B", net=kind), raises=(UserWarning,)))
     for kind in ("all_supplied", "unsupplied", "bus_out_of_service"):
         out.append(Inst(f"batch_flows_{kind}", make_batch_flows(kind), nvars=30, samples=2, meta=dict(part="B", flows=kind), raises=(UserWarning,)))
     for el, var in AC_PAIRS:
